@@ -60,12 +60,13 @@ class Session(object):
     def restart(self):
         return self.start()
 
-    def inproc_edit(self, prog):
-        """Rewrite the sources while the worker stays alive and reload all generated modules."""
+    def inproc_edit(self, prog, fresh=False):
+        """Rewrite the sources while the worker stays alive and reload all generated modules
+        (fresh: forget the modules and import them again - names that were removed from the source disappear)."""
         self.write(prog, via_worker=True)
         pkg = prog.get("pkg", M.PKG)
         order = ["xt", "xt.util", pkg] + [f"{pkg}.{m}" for m in prog["mods"]]
-        self.w.call("call", module="vf.harness.session", func="_reload_present", args=[order])
+        self.w.call("call", module="vf.harness.session", func="_reimport_fresh" if fresh else "_reload_present", args=[order])
 
     def eval(self, root, style="eval", args=(), kwargs=None, opts=None, path=None, fail=None):
         f = self.prog["funcs"][root]
@@ -98,6 +99,25 @@ def _install_stub():
 
     assert dds.__file__.startswith(here), dds.__file__
     return True
+
+
+def _reimport_fresh(order):
+    import importlib
+    import linecache
+    import sys
+
+    importlib.invalidate_caches()
+    linecache.checkcache()
+    present = [n for n in order if n in sys.modules]
+    for n in present:
+        del sys.modules[n]
+    for n in present:
+        try:
+            importlib.import_module(n)
+        except ImportError:
+            pass
+    linecache.checkcache()
+    return present
 
 
 def _reload_present(order):
